@@ -34,7 +34,7 @@ CONSTANTS MaxSteps        \* bound on machine steps per run (a run that exceeds 
 (* expression nodes [k, ...]:
      lit v | var x d | bin op l r | un op e | and l r | or l r | assign x d e | cassign x d op e
      call f args | lam ps e name | vec es | tup es | idx o i | setidx o i e | range l r | interp parts
-     inv o m args | get o m | setf o m e | map kvs                                                 *)
+     inv o m args | get o m | setf o m e | csetf o m op e | map kvs                                                *)
 
 Openers == {"if", "while", "for", "block", "try", "fn", "class", "method"}
 (*  class x d sup(var node or Nil-literal) superd ctor ;  method x ps kind(method|static|ctor) sd ... end ;  end  *)
@@ -367,6 +367,8 @@ Items(e) ==
       [] e.k = "inv" -> <<Ev(e.o)>> \o EvAll(e.args, 1) \o <<It2("inv", e.m, Len(e.args))>>
       [] e.k = "get" -> <<Ev(e.o), It1("get", e.m)>>
       [] e.k = "setf" -> <<Ev(e.o), Ev(e.e), It1("setf", e.m)>>
+      \* o.m op= e (compiler.rs dot): the object is evaluated ONCE, the property is read, then e, the operator, the store
+      [] e.k = "csetf" -> <<Ev(e.o), It("dup"), It1("get", e.m), Ev(e.e), It1("bin", e.op), It1("setf", e.m)>>
       [] e.k = "superinv" -> <<Ev([k |-> "var", x |-> e.sx, d |-> e.sd])>> \o EvAll(e.args, 1) \o <<[i |-> "superinv", a |-> e.m, b |-> Len(e.args), d |-> e.d]>>
       [] e.k = "superget" -> <<Ev([k |-> "var", x |-> e.sx, d |-> e.sd]), [i |-> "superget", a |-> e.m, d |-> e.d]>>
       [] e.k = "Self" -> <<Ev([k |-> "var", x |-> "Self", d |-> e.d]), It("classof")>>
@@ -701,6 +703,7 @@ Micro(m) ==
          ELSE IF it.a \in DOMAIN m.glob[fr.mod] THEN SetGlobal(m1, fr.mod, it.a, Top(vs))
          ELSE Fail(NameErr(it.a))
       [] it.i = "pop" -> SetFrame(m, [fr1 EXCEPT !.vs = Pop(vs)])
+      [] it.i = "dup" -> SetFrame(m, Push(fr1, Top(vs)))
       [] it.i = "next" -> SetFrame(m, [fr1 EXCEPT !.pc = fr.pc + 1])
       [] it.i = "print" ->    \* (statement form used by the generator: print(e);) = call of the global `print`
          SetFrame([m EXCEPT !.out = Append(m.out, Text(m, Top(vs)))], [fr1 EXCEPT !.vs = Pop(vs)])
